@@ -94,7 +94,10 @@ def model_build_contract():
         schemas0, cbn0 = _schemas(I, "argument", lambda I2, k: SOpaque("an existing class"))
         schemas1, cbn1 = _schemas(I, "after property processing", lambda I2, k: SOpaque("an existing class"))
 
+        seen_roots = {}
+
         def ppd(I2, a, k):
+            seen_roots["ppd"] = k.get("roots")
             if I2.branch_free():
                 return STuple([SObj(PropertyError, {"detail": "d", "level": None, "header": "h", "data": None}), schemas1])
             pdata = SOpaque("property_data", attrs={"required_props": SList(), "optional_props": SList(),
@@ -111,15 +114,53 @@ def model_build_contract():
         kw = dict(data=data, name=SStr(z3.Const("name", z3.StringSort())), schemas=schemas0,
                   required=SBool(z3.Const("required", z3.BoolSort())),
                   parent_name=SStr(z3.Const("parent_name", z3.StringSort())) if has_parent else None,
-                  config=config, process_properties=process, roots=SSet())
+                  config=config, process_properties=process, roots=None)
+        from openapi_python_client import utils as _u
+        caller_roots = SSet({"/components/schemas/Referrer", _u.ClassName("Outer", "")})
+        kw["roots"] = caller_roots
         return SFunc("pyfunc", MP.ModelProperty.build.__func__, self_val=MP.ModelProperty), [], kw, \
-            {"cname": cname, "consulted": cbn1 if process else cbn0, "process": process}
+            {"cname": cname, "consulted": cbn1 if process else cbn0, "process": process, "caller_roots": caller_roots,
+             "seen_roots": seen_roots}
 
-    clauses = [Clause("never-overwrites", _table_clause(None, lambda ctx: ctx.inputs["consulted"], False),
+    def _covers(I, rootset, caller, cname):
+        """does the set value contain every caller root (reference paths AND class names) and the model's class name?"""
+        from pyvc.absdata import GrowSet
+        have, name_in = set(), False
+        if isinstance(rootset, SSet):
+            have = set(rootset.items)
+        elif isinstance(rootset, GrowSet):
+            for kind, x in rootset.added:
+                if kind == "update":
+                    items = x.items if isinstance(x, (SSet, SList)) else []
+                    have |= set(items)
+                else:
+                    if isinstance(x, SStr) and I.must(x.t == cname.t):
+                        name_in = True
+                    elif isinstance(x, str):
+                        have.add(x)
+        else:
+            return False
+        return name_in and all(r in have for r in caller.items)
+
+    def roots_clause(ctx):
+        i = ctx.inputs
+        res = ctx.value.items[0]
+        ok = True
+        if i["process"]:
+            ok = _covers(ctx.I, i["seen_roots"].get("ppd"), i["caller_roots"], i["cname"])
+        if isinstance(res, SObj) and res.cls.__name__ == "ModelProperty":
+            ok = ok and _covers(ctx.I, res.fields.get("roots"), i["caller_roots"], i["cname"])
+        return ok
+
+    clauses = [Clause("roots-inherited", roots_clause,
+                      statement="the roots handed to property processing and stored in the model are the caller's roots -- reference "
+                                "paths and class names alike -- plus the model's own class name (so that removing any ancestor "
+                                "removes this model)", props=["C08", "C01"]),
+               Clause("never-overwrites", _table_clause(None, lambda ctx: ctx.inputs["consulted"], False),
                       statement="a returned ModelProperty is registered under a class name that was absent from the table "
                                 "returned by property processing (nested inline schemas included); every other entry of "
                                 "that table is kept")]
-    return FnContract(Q, [Case("registration", make, clauses, raises=(), props=["C09", "C07", "C12"])])
+    return FnContract(Q, [Case("registration", make, clauses, raises=(), props=["C09", "C07", "C12", "C08", "C01"])])
 
 
 class _Values(SOpaque):
